@@ -66,6 +66,46 @@ CHECKS = {
         text="One or more crystals per space group in sheared/supercell/rotated presentations; the flag must equal membership in the 65 Sohncke groups and be identical across presentations.",
         note="Trusted: spglib Hall database; spglib group detection.",
         ref="DESIGN.md §6 C15"),
+    "C01": dict(
+        technique="runtime postcondition bound on SBC.get_clusters (bit-exact input snapshot, well-formedness, disjointness, species, connectivity by an independent brute-force bonding oracle, prototype-cell periodicity, exception rule) + stage recorders; determinism by repeated call and by an offline comparison of runs under different PYTHONHASHSEED",
+        text="Hundreds (quick) to thousands (thorough) of hostile structures of the stated family are clustered with varied parameters; each return value (or exception) is judged by the postcondition, connectivity is decided on the caller's own structure by an oracle that shares no code with MatID, and recorders show how often merge/localize/clean really acted. Thorough adds an ASan+UBSan lane.",
+        note="Trusted: numpy brute-force minimum image, ASE radii tables. Connectivity is judged with bond_threshold + 1e-9.",
+        ref="DESIGN.md §6 C01"),
+    "C02": dict(
+        technique="case rule on SBC().get_clusters over an enumerated universe of single-crystal cells x presentation pool, with an independent bonding precondition; known heuristic misses keyed by cell",
+        text="Every cell (material x bulk/facet x layers x pbc x noise) of the finite universe is generated in a rotated/translated/permuted presentation and must come back as one complete cluster of dimensionality 3/2. The search is a heuristic: cells on which it genuinely fails are listed as known findings by cell key, so a regression shows up as failures in unlisted cells.",
+        note="Trusted: ASE builders/lattice constants; brute-force bonding precondition. Thorough enumerates all cells for the seed class VERIF_SEED mod 4.",
+        ref="DESIGN.md §5, §6 C02"),
+    "C03": dict(
+        technique="case rule on SBC().get_clusters over an enumerated universe of two-metal stacks (index sets tracked through the permutation) with bonding/interface precondition",
+        text="Each stack cell (ordered metal pair with <5 % mismatch x facet x layers x lateral size x pbc x noise x registry) must be split into exactly its two slabs, each of dimensionality 2.",
+        note="Trusted: ASE surface builders; brute-force bonding precondition.",
+        ref="DESIGN.md §6 C03"),
+    "C04": dict(
+        technique="case rule comparing SymmetryAnalyzer(cluster.get_cell()) with the analysis of the source unit cell over the enumerated single-crystal + monolayer universe; symmetry monitors bound in situ (advisory)",
+        text="For every cell that SBC returns as one complete cluster, the prototype cell must reproduce material id, space group and Wyckoff occupation of the source, have the right number of periodic directions and hold whole formula units.",
+        note="Trusted: ASE builders; the source analysis uses the same analyzer at the same tolerance.",
+        ref="DESIGN.md §6 C04"),
+    "C11": dict(
+        technique="runtime postcondition on the 2D conventional system + offline relational checker across presentations (vacuum, all 6 axis relabellings, in-plane supercells, SO(3) incl. flips, translations, permutations) recorded under different PYTHONHASHSEED",
+        text="Sheets generated in 38 layer-compatible symmorphic groups plus graphene/BN/MX2 are analysed in several presentations; pbc, containment and thickness rule are judged per analysis and id/group/Wyckoff multiset/in-plane lattice must be identical across presentations; the id must differ from the 3D id.",
+        note="Trusted: spglib for the conditioning filter on a replica of the analysed cell; exactness of the re-presentations.",
+        ref="DESIGN.md §6 C11"),
+    "C13": dict(
+        technique="runtime postcondition on every cluster returned by SBC.get_clusters: shortcut (twice) vs direct get_dimensionality with the radii/threshold of the clustering; stage recorders mark clusters that lost atoms after region tracking",
+        text="The workload is biased to finite crystallites, vacancy shells and two-grain cells so that localization and cleaning really remove atoms (counted in the evidence), with covalent/vdw/vdw_covalent/custom radii.",
+        note="Trusted: matid.geometry.get_dimensionality as reference (itself decided by C09).",
+        ref="DESIGN.md §6 C13"),
+    "C17": dict(
+        technique="runtime postcondition on Classifier.classify (input snapshot, class vs dimensionality of the wrapped structure, region partition/coverage, repeatability) on the hostile structure family",
+        text="Every classification of the random family (all pbc masks, degenerate and missing cells, unwrapped atoms, varied thresholds) is judged against get_dimensionality of the wrapped copy and against the invariants of its own region.",
+        note="Trusted: get_dimensionality as reference (C09). Singular periodic cells are fed and counted out-of-domain.",
+        ref="DESIGN.md §6 C17"),
+    "C18": dict(
+        technique="case rule on Classifier().classify over an enumerated universe of slabs (+0-2 adsorbates) and monolayers x presentation pool, with independent bonding precondition; known heuristic misses keyed by cell",
+        text="Every cell must be classified Surface with exactly the adsorbates as outliers, or Material2D without outliers; cells where the heuristic genuinely fails are listed by cell key.",
+        note="Trusted: ASE builders; brute-force bonding precondition; default Classifier parameters.",
+        ref="DESIGN.md §6 C18"),
 }
 
 PENDING = {}
